@@ -494,6 +494,19 @@ pub fn other_routes_raw(html: &[u8], w: usize, cfg: &Cfg) -> Vec<(&'static str, 
     if cfg.dec == Dec::Plain && cfg.opts.is_empty() {
         v.push(("from_read", conv(catch_unwind(AssertUnwindSafe(|| html2text::from_read(html, w))))));
     }
+    // html2text::parse() builds the tree once (with a trivial-decorator configuration); it can
+    // then be rendered with any decorator whose configuration does not change tree building
+    // (no CSS, no do_decorate pseudo-content)
+    let tree_neutral = !cfg.opts.iter().any(|o| matches!(o, Opt::Decorate | Opt::DocCss | Opt::UserCss(_) | Opt::AgentCss(_))) && cfg.dec != Dec::Plain;
+    if tree_neutral && cfg.dec != Dec::Trivial {
+        v.push((
+            "parse() + render_to_string with this configuration",
+            conv(catch_unwind(AssertUnwindSafe(|| {
+                let t = html2text::parse(html)?;
+                with_cfg!(cfg, |c| c.and_then(|c| c.render_to_string(t, w)))
+            }))),
+        ));
+    }
     if cfg.dec == Dec::Trivial && cfg.opts.is_empty() {
         v.push((
             "from_read_with_decorator",
